@@ -119,6 +119,8 @@ class Lib(FsMixin):
             v = v.b
         if is_bytes(v):
             return term_of(v)
+        if py_class(v) is not None:
+            raise_py('TypeError', 'a bytes-like object is required, not %s' % py_class(v).name)
         raise Unsupported('expected bytes-like, got %r' % (v,))
 
     # ------------------------------------------------------------------ zlib / struct
